@@ -181,6 +181,11 @@ V('c08-tomof-drops-translatable', 'C08', 'C08.R6',
   (OBJ, "        if self.translatable:\n            mof_flavors.append('Translatable')\n\n", ""),
   'translatable')
 
+V('c06-cimvalue-any-cimtype', 'C06', 'C06.R4',
+  (OBJ, "    if isinstance(value, type_obj):\n        return value\n    return type_obj(value)",
+        "    if isinstance(value, (type_obj, CIMFloat)):\n        return value\n    return type_obj(value)"),
+  'untyped-return')
+
 # ---- C04 ------------------------------------------------------------------
 OPSF = 'pywbem/_cim_operations.py'
 MOCKF = 'pywbem_mock/_wbemconnection_mock.py'
